@@ -2,7 +2,7 @@
 # usage: harness/multiseed.sh "<seeds>" [tier] [parallelism] — every claimed check on /repo for several seeds
 seeds="${1:-2 3 4}"; tier="${2:-quick}"; par="${3:-4}"
 cd /verif
-run_one() { p=$1; s=$2; t=$3; start=$(date +%s); out=$(VERIF_SEED=$s ./check $p $t 2>/dev/null | grep -E "VIOLATION|KNOWN|^  C[0-9]|^  unpr" | head -5); rc=${PIPESTATUS[0]}; echo "$p seed=$s rc=$rc $(( $(date +%s)-start ))s ${out:0:300}"; }
+run_one() { p=$1; s=$2; t=$3; start=$(date +%s); f=$(mktemp /tmp/ms.XXXXXX); VERIF_SEED=$s ./check $p $t >$f 2>&1; rc=$?; out=$(grep -E "VIOLATION|KNOWN|^  C[0-9]|^  unpr|INFRASTRUCTURE|TIMEOUT" $f | head -5); rm -f $f; echo "$p seed=$s rc=$rc $(( $(date +%s)-start ))s ${out:0:300}"; }
 export -f run_one
 for s in $seeds; do
   if [ -n "${PROPS:-}" ]; then echo $PROPS | tr " " "\n"; else python3 -c "import json; print('\n'.join(c['property_id'] for c in json.load(open('MANIFEST.json'))['checks']))"; fi | xargs -P $par -I{} bash -c "run_one {} $s $tier"
